@@ -20,6 +20,9 @@ def lib():
     """asyncstdlib, imported late so the runner can point sys.path at the tree under test"""
     global _lib
     if _lib is None:
+        from .vclock import install
+
+        install()  # the clock seam goes in before the library can bind any clock function
         import asyncstdlib
 
         _lib = asyncstdlib
@@ -171,8 +174,12 @@ class Gen:
         if self.cfg.odd_sources and fl not in CONTAINER_FLAVOURS and fl != "agen":
             falsy = self.ch.chance(1, 8)
         resilient = fl == "agen" and self.cfg.odd_sources and self.ch.chance(1, 6)
+        slow = None
+        if self.cfg.odd_sources and fl not in ("list", "tuple") and self.ch.chance(1, 8):
+            # a slow producer: virtual seconds pass inside some of its pulls
+            slow = tuple((0.0, 0.05, 0.3, 2.0)[self.ch.draw(4)] for _ in range(3))
         equal = self.equal_sources and fl in ("aiter_cls", "aiter_full", "aiter_noclose")
-        return SrcPlan(name, items, fl, susp, ac, aclose_mode=mode, falsy=falsy, resilient=resilient, equal=equal)
+        return SrcPlan(name, items, fl, susp, ac, aclose_mode=mode, falsy=falsy, resilient=resilient, equal=equal, slow=slow)
 
     def fn(self, kind, param=0):
         fls = self.cfg.fn_flavours
